@@ -116,17 +116,25 @@ inline const std::vector<SlotInfo>& t36_slots()
 }
 inline std::vector<std::vector<int>> t36_patterns() { std::vector<std::vector<int>> p; for (auto& s : t36_slots()) p.push_back(s.pattern); return p; }
 
-template<class Limits>
-auto make_t36(Limits lim)
+// terms of the templates: char terms with a typed functor (generated lexer) or custom terms (use_lexer<L>)
+template<class LexerUsage, int I>
+auto make_tterm(const char* name)
+{
+    if constexpr (std::is_same_v<LexerUsage, ctpg::use_generated_lexer>) return ctpg::typed_term(ctpg::char_term(name[0]), TermF<I>{});
+    else return ctpg::custom_term(name, TermF<I>{});
+}
+
+template<class Limits, class LexerUsage = ctpg::use_generated_lexer>
+auto make_t36(Limits lim, LexerUsage lu = LexerUsage{})
 {
     using namespace ctpg;
     constexpr nterm<TV> n0("N0"), n1("N1"), n2("N2"), n3("N3"), n4("N4"), n5("N5"), park("PARK");
-    auto ta = typed_term(char_term('a'), TermF<0>{});
-    auto tb = typed_term(char_term('b'), TermF<1>{});
-    auto tc = typed_term(char_term('c'), TermF<2>{});
-    auto td = typed_term(char_term('d'), TermF<3>{});
-    auto te = typed_term(char_term('e'), TermF<4>{});
-    auto tf = typed_term(char_term('f'), TermF<5>{});
+    auto ta = make_tterm<LexerUsage, 0>("a");
+    auto tb = make_tterm<LexerUsage, 1>("b");
+    auto tc = make_tterm<LexerUsage, 2>("c");
+    auto td = make_tterm<LexerUsage, 3>("d");
+    auto te = make_tterm<LexerUsage, 4>("e");
+    auto tf = make_tterm<LexerUsage, 5>("f");
     return parser(
         n0,
         terms(ta, tb, tc, td, te, tf),
@@ -169,7 +177,7 @@ auto make_t36(Limits lim)
             n0(ta) >= F<34>{},
             n0(ta, ta, ta) >= F<35>{}
         ),
-        use_generated_lexer{},
+        lu,
         lim
     );
 }
@@ -268,18 +276,18 @@ struct T20
     }
 };
 
-template<class Limits>
+template<class Limits, class LexerUsage = ctpg::use_generated_lexer>
 struct T36
 {
     static const char* name() { return "T36"; }
     static const std::vector<SlotInfo>& slots() { return t36_slots(); }
-    using parser_type = decltype(make_t36(Limits{}));
+    using parser_type = decltype(make_t36(Limits{}, LexerUsage{}));
     static parser_type* instance()
     {
         static parser_type* p = []
         {
             parser_type* r = nullptr;
-            on_big_stack([&] { r = new parser_type(make_t36(Limits{})); });
+            on_big_stack([&] { r = new parser_type(make_t36(Limits{}, LexerUsage{})); });
             return r;
         }();
         return p;
